@@ -12,6 +12,18 @@ bug-compatible, of the string surgery in
   * `expressions/source_code.py` `NixSourceCode.rebuild`
   * `expressions/parenthesis.py` `Parenthesis.rebuild`
   * `expressions/function/call.py` `FunctionCall.rebuild`
+  * `expressions/select.py`      `Select.rebuild`
+  * `expressions/unary.py`       `UnaryExpression.rebuild`
+  * `expressions/binary.py`      `BinaryExpression.rebuild`, `_resolve_right_operand`, `_rebuild_operand`,
+    `_ensure_indent` (not `_format_chained_binary`: `//` / `++` with the operator on its own line are outside
+    `Cst.modelled`)
+  * `expressions/function/definition.py` `FunctionDefinition.rebuild` (identifier argument: `_render_output`,
+    `_format_colon_split`)
+  * `expressions/with_statement.py` `WithStatement.rebuild`, `expressions/assertion.py` `Assertion.rebuild`
+    (one stated deviation each: the trim of `environment.before` / `condition.before` that `rebuild`
+    applies to a copy is left out — `from_cst` never writes these fields, they are `[]` on everything
+    it builds, `Lemmas/FragParse.lean: cst_parse_spec` —; `Assertion.between` is written into the body
+    by `asrtFromCst`)
 
 `NixList.multiline` is a `Bool`: `from_cst` always sets it, so `_auto_multiline` returns it (the
 inference branch is reachable only for lists built programmatically). `has_scope()` is false for
@@ -88,6 +100,178 @@ def startsNonSpace (s : Text) : Bool :=
   | [] => false
   | c :: _ => !isPyWhitespace c
 
+/-- line boundaries of `str.splitlines()` -/
+def isLineBoundary (c : Char) : Bool :=
+  c = '\n' || c = '\r' || c = '\x0b' || c = '\x0c' || c = '\x1c' || c = '\x1d' || c = '\x1e' ||
+  c = '\x85' || c = '\u2028' || c = '\u2029'
+
+/-- `s.splitlines()`: state = (current line, the previous character was `\r`) -/
+def pySplitlinesGo : Text → Text → Bool → List Text
+  | [], cur, _ => if cur.isEmpty then [] else [cur]
+  | c :: rest, cur, prevCR =>
+    if prevCR && c = '\n' then pySplitlinesGo rest cur false
+    else if isLineBoundary c then cur :: pySplitlinesGo rest [] (c = '\r')
+    else pySplitlinesGo rest (cur ++ [c]) false
+
+def pySplitlines (s : Text) : List Text := pySplitlinesGo s [] false
+
+/-- `Assertion.rebuild: inline_is_absorbed(rendered)` -/
+def inlineIsAbsorbed (rendered : Text) : Bool :=
+  let lines := pySplitlines rendered
+  if lines.length ≤ 1 then true
+  else ((lines.drop 1).dropLast).all fun line => !(!(strip line).isEmpty && !startsWith [' '] line)
+
+/-- `Assertion.rebuild: trivia_forces_newline(items)` / `WithStatement.rebuild: force_env_newline` -/
+def triviaForcesNewline (items : List Trivia) : Bool :=
+  items.any fun t => match t with
+    | .emptyLine => true
+    | .linebreak => true
+    | .comment c => !c.inline
+    | .comma => false
+
+/-- `item in (linebreak, empty_line) or isinstance(item, Comment)` for some item -/
+def hasLayoutOrComment (items : List Trivia) : Bool :=
+  items.any fun t => match t with
+    | .comma => false
+    | _ => true
+
+/-- `WithStatement.rebuild: is_absorbable_term(expr)` (a `NixList` built by `from_cst` has `multiline`
+    set; `IndentedString` is outside the fragment) -/
+def Expr.absorbable : Expr → Bool
+  | .paren v _ _ _ _ _ _ => v.absorbable
+  | .list .. => true
+  | .set .. => true
+  | _ => false
+
+/-- the layout in front of the environment of a `with` -/
+def withLayout (awc : List Trivia) (awGap : Text) : Layout :=
+  let l0 := Layout.fromGap awGap
+  let l1 := if !awc.isEmpty then { l0 with blankLine := false } else l0
+  if triviaForcesNewline awc && !l1.onNewline then
+    { l1 with onNewline := true, blankLine := awc.any (· == .emptyLine) }
+  else l1
+
+/-- `body_force_newline` of `WithStatement.rebuild` -/
+def withBodyForce (awc : List Trivia) (asc : List Comment) (bodyBefore : List Trivia) : Bool :=
+  !awc.isEmpty || !asc.isEmpty || hasLayoutOrComment bodyBefore
+
+/-- `if indent: if body_str.startswith(" " * indent): body_str = body_str[indent:]` -/
+def stripIndentPrefix (s : Text) (indent : Nat) : Text :=
+  if indent != 0 && startsWith (spaces indent) s then s.drop indent else s
+
+/-- the layout in front of the condition of an `assert` -/
+def asrtLayout (onNL : Bool) (indent : Nat) : Layout :=
+  { onNewline := onNL, blankLine := false, indent := if onNL then some (indent + 2) else none }
+
+/-- separator and body of a `with`: an absorbable body without leading trivia stays on the line (its
+    indentation prefix cut off); otherwise the body goes on its own line when that is forced or its
+    inline rendering spans lines -/
+def withBodyPart (force absorbable : Bool) (inlineBody fullBody : Text) (indent : Nat) : Text :=
+  if !force && absorbable then [' '] ++ stripIndentPrefix fullBody indent
+  else if force || containsNL inlineBody then ['\n'] ++ fullBody
+  else [' '] ++ inlineBody
+
+/-- `Select.rebuild`: the text between the expression and `.` — the comments in front of `.` and the
+    separator (`attr_sep`, with a leading line break cut off when the expression ends with one) -/
+def selSep (exprStr : Text) (attrGap : Text) (attrBefore : List Trivia) (indent : Nat) : Text :=
+  let l0 := Layout.fromGap attrGap
+  let l := if !attrBefore.isEmpty then { l0 with blankLine := false } else l0
+  let attrIndent := if l.onNewline then l.indent.getD indent else indent
+  let r := formatInterstitialTriviaWithSeparator attrBefore l attrIndent (dropBlankIfItems := false) (inlineSep := [])
+    (stripLeadingNLAfter := some exprStr)
+  let sep := if endsWithNL exprStr && startsWithNL r.2 then r.2.drop 1 else r.2
+  r.1 ++ sep
+
+/-- `Select.rebuild`: the text between the attrpath and `or` -/
+def selOrSep (dfltGap : Text) (dfltBefore : List Trivia) (indent : Nat) : Text :=
+  let l := Layout.fromGap dfltGap
+  if l.onNewline then
+    let dIndent := l.indent.getD (indent + 2)
+    let sep : Text := if l.blankLine then ['\n', '\n'] else ['\n']
+    -- a first inline comment stays on the line of the attrpath
+    let sp : Text × List Trivia := match dfltBefore with
+      | .comment c :: rest => if c.inline then ([' '] ++ c.rebuild 0, rest) else ([], dfltBefore)
+      | _ => ([], dfltBefore)
+    let cs := if sp.2.isEmpty then [] else formatTrivia sp.2 dIndent
+    let cs := if !cs.isEmpty && !endsWithNL cs then cs ++ ['\n'] else cs
+    sp.1 ++ sep ++ cs ++ spaces dIndent
+  else [' ']
+
+/-- the indentation the default of a select is rendered at -/
+def selOrIndent (dfltGap : Text) (indent : Nat) : Nat :=
+  let l := Layout.fromGap dfltGap
+  if l.onNewline then l.indent.getD (indent + 2) else indent
+
+/-- `FunctionDefinition._format_colon_split`: the text between the argument and `:` -/
+def lamColonPrefix (bcc : List Trivia) (bcGap : Text) (indent : Nat) : Text :=
+  -- (`colon_layout` is computed like the layout in front of the environment of a `with`)
+  let r := formatInterstitialTriviaWithSeparator bcc (withLayout bcc bcGap) indent
+    (inlineSep := if bcc.isEmpty then [] else [' ']) (dropBlankIfItems := false)
+  r.1 ++ r.2
+
+/-- `" "` or `"\n" * breaks_after_semicolon` -/
+def lamBreak (breaks : Nat) : Text := if breaks = 0 then [' '] else List.replicate breaks '\n'
+
+/-- `UnaryExpression.rebuild`: the layout in front of the operand (any comment forces a line break) -/
+def unLayout (between : List Trivia) (gap : Text) : Layout :=
+  let l0 := Layout.fromGap gap
+  let l1 := if !between.isEmpty then { l0 with blankLine := false } else l0
+  if hasLayoutOrComment between && !l1.onNewline then
+    { l1 with onNewline := true, blankLine := between.any (· == .emptyLine) }
+  else l1
+
+/-- the text between the operator and the operand -/
+def unSep (between : List Trivia) (gap : Text) (indent : Nat) : Text :=
+  let r := formatInterstitialTriviaWithSeparator between (unLayout between gap) indent
+    (inlineSep := if between.isEmpty then [] else [' ']) (includeIndent := false) (dropBlankIfItems := false)
+  r.1 ++ r.2
+
+/-- `_CHAINABLE_OPERATORS` -/
+def chainable (op : Text) : Bool :=
+  ["++", "//", "+", "&&", "||", "->"].any fun s => s.toList == op
+
+/-- `isinstance(expr.right, BinaryExpression) and expr.right.operator.name == expr.operator.name and
+    expr.right.operator_gap_lines` -/
+def Expr.sameOpChain : Expr → Text → Bool
+  | .bin o _ _ ogl _ _ _, op => o == op && ogl != 0
+  | _, _ => false
+
+/-- `_has_leading_comment(expr)` -/
+def hasLeadingComment (before : List Trivia) : Bool :=
+  before.any fun t => match t with
+    | .comment c => !c.inline
+    | _ => false
+
+/-- `_resolve_right_operand`: the indentation of the right operand -/
+def binRightIndent (op : Text) (right : Expr) (indent : Nat) : Nat :=
+  if chainable op then
+    if right.sameOpChain op then indent
+    else if right.absorbable && !hasLeadingComment right.before then indent
+    else indent + 2
+  else indent
+
+/-- `_ensure_indent(text, indent)`: how many spaces are put in front -/
+def ensureIndentPad (text : Text) (indent : Nat) : Nat :=
+  if text.isEmpty then 0
+  else
+    let first := text.takeWhile (· != '\n')
+    if first.isEmpty then 0
+    else
+      let leading := (first.takeWhile (· == ' ')).length
+      if leading < indent then indent - leading else 0
+
+/-- `BinaryExpression.rebuild` (not chained): left, operator and right in the four layouts -/
+def binCore (leftStr rightOwn rightInl op : Text) (ogl rgl indent : Nat) : Text :=
+  if ogl != 0 then
+    if rgl != 0 then
+      leftStr ++ List.replicate ogl '\n' ++ spaces indent ++ op ++ List.replicate rgl '\n' ++ rightOwn
+    else leftStr ++ List.replicate ogl '\n' ++ spaces indent ++ op ++ [' '] ++ rightInl
+  else if rgl != 0 then leftStr ++ [' '] ++ op ++ List.replicate rgl '\n' ++ rightOwn
+  else leftStr ++ [' '] ++ op ++ [' '] ++ rightInl
+
+def kwWith : Text := ['w', 'i', 't', 'h']
+def kwAssert : Text := ['a', 's', 's', 'e', 'r', 't']
+
 mutual
 /-- `expr.rebuild(indent, inline)`; with `noAfter` the expression is rendered as
     `expr.model_copy(update={"after": []})` (what `Binding.rebuild` does to its value) -/
@@ -163,6 +347,66 @@ def Expr.rebuildA : Expr → Bool → Nat → Bool → Text
     let argsStr := if layout.onNewline && startsNonSpace argsStr then spaces argIndent ++ argsStr else argsStr
     let sep : Text := if layout.blankLine then ['\n', '\n'] else if layout.onNewline then ['\n'] else [' ']
     addTrivia before after (fnStr ++ sep ++ argsStr) indent inline
+  | .wth env body awc awGap asc before after, noAfter, indent, inline =>
+    let after := if noAfter then [] else after
+    let awl := withLayout awc awGap
+    -- (the trim of `environment.before` is the identity on what `from_cst` builds)
+    let envStr :=
+      if awl.onNewline then env.rebuildA false (awl.indent.getD indent) false else env.rebuildA false indent true
+    let r := formatInterstitialTriviaWithSeparator awc awl indent (includeIndent := false) (dropBlankIfItems := false)
+    let force := withBodyForce awc asc body.before
+    addTrivia before after
+      (kwWith ++ r.1 ++ r.2 ++ envStr ++ [';'] ++ formatInlineCommentSuffix asc ++
+        withBodyPart force body.absorbable (body.rebuildA false indent true) (body.rebuildA false indent false) indent)
+      indent inline
+  | .asrt cond body aac bsc before after, noAfter, indent, inline =>
+    let after := if noAfter then [] else after
+    let condInline := cond.rebuildA false indent true
+    let onNL := triviaForcesNewline aac || !inlineIsAbsorbed condInline
+    let condIndent := if onNL then indent + 2 else indent
+    -- (the trim of `condition.before` is the identity on what `from_cst` builds)
+    let condStr := if onNL then cond.rebuildA false (indent + 2) false else condInline
+    let r1 := formatInterstitialTriviaWithSeparator aac (asrtLayout onNL indent) condIndent (includeIndent := false)
+      (stripLeadingNLAfter := some condStr)
+    let r2 : Text × Text :=
+      if bsc.isEmpty then ([], [])
+      else formatInterstitialTriviaWithSeparator bsc { onNewline := true, blankLine := false, indent := some indent }
+        indent (inlineSep := [' ']) (stripLeadingNLAfter := some condStr)
+    let line := addTrivia before after (kwAssert ++ r1.1 ++ r1.2 ++ condStr ++ r2.1 ++ r2.2 ++ [';']) indent inline
+    -- (`between` is part of `body.before`: `asrtFromCst`)
+    line ++ (if endsWithNL line then [] else ['\n']) ++ body.rebuildA false indent false
+  | .sel expr attrs attrGap attrBefore before after, noAfter, indent, inline =>
+    let after := if noAfter then [] else after
+    let exprStr := expr.rebuildA false indent true
+    addTrivia before after (exprStr ++ selSep exprStr attrGap attrBefore indent ++ '.' :: attrText attrs) indent inline
+  | .selOr expr attrs attrGap attrBefore dflt dfltGap dfltBefore before after, noAfter, indent, inline =>
+    let after := if noAfter then [] else after
+    let exprStr := expr.rebuildA false indent true
+    addTrivia before after
+      (exprStr ++ selSep exprStr attrGap attrBefore indent ++ '.' :: attrText attrs ++
+        selOrSep dfltGap dfltBefore indent ++ ['o', 'r', ' '] ++ dflt.rebuildA false (selOrIndent dfltGap indent) true)
+      indent inline
+  | .lam name bcc bcGap breaks body before after, noAfter, indent, inline =>
+    let after := if noAfter then [] else after
+    addTrivia before after
+      (name ++ lamColonPrefix bcc bcGap indent ++ [':'] ++ lamBreak breaks ++ body.rebuildA false indent (breaks == 0))
+      indent inline
+  | .un op expr gap between before after, noAfter, indent, inline =>
+    let after := if noAfter then [] else after
+    let l := unLayout between gap
+    let exprStr := if l.onNewline then expr.rebuildA false (l.indent.getD indent) false else expr.rebuildA false indent true
+    let base : Text := if op == ['+', '+'] && !inline then ['\n'] ++ spaces indent ++ op else op
+    addTrivia before after (base ++ unSep between gap indent ++ exprStr) indent inline
+  | .bin op left right ogl rgl before after, noAfter, indent, inline =>
+    let after := if noAfter then [] else after
+    let leftStr := left.rebuildA false indent true
+    -- (`Operator.rebuild(indent)` = `" " * indent + name`: the operator carries no trivia)
+    let rightIndent := binRightIndent op right indent
+    -- `_rebuild_operand(right, indent=right_indent, inline=True)`: an operand with leading trivia is rendered
+    -- on its own line; then `_ensure_indent`
+    let rightOwn := right.rebuildA false rightIndent (right.before.isEmpty)
+    let rightOwn := spaces (ensureIndentPad rightOwn rightIndent) ++ rightOwn
+    addTrivia before after (binCore leftStr rightOwn (right.rebuildA false indent true) op ogl rgl indent) indent inline
 /-- `[item.rebuild(indent, inline) for item in items]` -/
 def rebuildAll : List Expr → Nat → Bool → List Text
   | [], _, _ => []
@@ -329,6 +573,36 @@ def fnAfterP (acc : List FP) : List Comment → Nat → List FP
     else
       fnAfterP (acc ++ (if endsWithNL (concat acc) then [] else [.ws ['\n']]) ++ cmtP c indent) rest indent
 
+/-- `s[n:]` on the concatenation -/
+def dropCharsP : List FP → Nat → List FP
+  | [], _ => []
+  | p :: rest, n =>
+    if n = 0 then p :: rest
+    else if p.text.length ≤ n then dropCharsP rest (n - p.text.length)
+    else p.withText (p.text.drop n) :: rest
+
+def stripIndentPrefixP (ps : List FP) (indent : Nat) : List FP :=
+  if indent != 0 && startsWith (spaces indent) (concat ps) then dropCharsP ps indent else ps
+
+/-- the tokens of `.a₁.a₂.….aₙ` -/
+def attrP : List Text → List FP
+  | [] => []
+  | [a] => [.tok a]
+  | a :: rest => .tok a :: .tok ['.'] :: attrP rest
+
+def binCoreP (leftP rightOwn rightInl : List FP) (op : Text) (ogl rgl indent : Nat) : List FP :=
+  if ogl != 0 then
+    if rgl != 0 then
+      leftP ++ [.ws (List.replicate ogl '\n' ++ spaces indent), .tok op, .ws (List.replicate rgl '\n')] ++ rightOwn
+    else leftP ++ [.ws (List.replicate ogl '\n' ++ spaces indent), .tok op, .ws [' ']] ++ rightInl
+  else if rgl != 0 then leftP ++ [.ws [' '], .tok op, .ws (List.replicate rgl '\n')] ++ rightOwn
+  else leftP ++ [.ws [' '], .tok op, .ws [' ']] ++ rightInl
+
+def withBodyPartP (force absorbable : Bool) (inlineBody fullBody : List FP) (indent : Nat) : List FP :=
+  if !force && absorbable then .ws [' '] :: stripIndentPrefixP fullBody indent
+  else if force || containsNL (concat inlineBody) then .ws ['\n'] :: fullBody
+  else .ws [' '] :: inlineBody
+
 mutual
 def Expr.rebuildAP : Expr → Bool → Nat → Bool → List FP
   | .leaf k t before after, noAfter, indent, inline =>
@@ -396,6 +670,66 @@ def Expr.rebuildAP : Expr → Bool → Nat → Bool → List FP
     let argsP := if layout.onNewline && startsNonSpace (concat argsP) then .ws (spaces argIndent) :: argsP else argsP
     let sep : Text := if layout.blankLine then ['\n', '\n'] else if layout.onNewline then ['\n'] else [' ']
     addTriviaP before after (fnP ++ .ws sep :: argsP) indent inline
+  -- `with` / `assert`: the interstitial trivia (comments between the keyword and the head, around `;`)
+  -- are written as ONE whitespace piece: exact as text for every expression; as a labelling exact for
+  -- the expressions `fromCst` builds from well-formed trees, whose lists hold layout markers only
+  | .wth env body awc awGap asc before after, noAfter, indent, inline =>
+    let after := if noAfter then [] else after
+    let awl := withLayout awc awGap
+    let envP :=
+      if awl.onNewline then env.rebuildAP false (awl.indent.getD indent) false else env.rebuildAP false indent true
+    let r := formatInterstitialTriviaWithSeparator awc awl indent (includeIndent := false) (dropBlankIfItems := false)
+    let force := withBodyForce awc asc body.before
+    addTriviaP before after
+      ([.tok kwWith, .ws (r.1 ++ r.2)] ++ envP ++ [.tok [';'], .ws (formatInlineCommentSuffix asc)] ++
+        withBodyPartP force body.absorbable (body.rebuildAP false indent true) (body.rebuildAP false indent false) indent)
+      indent inline
+  | .asrt cond body aac bsc before after, noAfter, indent, inline =>
+    let after := if noAfter then [] else after
+    let condInline := cond.rebuildAP false indent true
+    let onNL := triviaForcesNewline aac || !inlineIsAbsorbed (concat condInline)
+    let condIndent := if onNL then indent + 2 else indent
+    let condP := if onNL then cond.rebuildAP false (indent + 2) false else condInline
+    let r1 := formatInterstitialTriviaWithSeparator aac (asrtLayout onNL indent) condIndent (includeIndent := false)
+      (stripLeadingNLAfter := some (concat condP))
+    let r2 : Text × Text :=
+      if bsc.isEmpty then ([], [])
+      else formatInterstitialTriviaWithSeparator bsc { onNewline := true, blankLine := false, indent := some indent }
+        indent (inlineSep := [' ']) (stripLeadingNLAfter := some (concat condP))
+    let line := addTriviaP before after
+      ([.tok kwAssert, .ws (r1.1 ++ r1.2)] ++ condP ++ [.ws (r2.1 ++ r2.2), .tok [';']]) indent inline
+    line ++ [.ws (if endsWithNL (concat line) then [] else ['\n'])] ++ body.rebuildAP false indent false
+  -- (the comments in front of `.` are written as one whitespace piece with the separator, as for `with`)
+  | .sel expr attrs attrGap attrBefore before after, noAfter, indent, inline =>
+    let after := if noAfter then [] else after
+    let exprP := expr.rebuildAP false indent true
+    addTriviaP before after
+      (exprP ++ [.ws (selSep (concat exprP) attrGap attrBefore indent), .tok ['.']] ++ attrP attrs) indent inline
+  | .selOr expr attrs attrGap attrBefore dflt dfltGap dfltBefore before after, noAfter, indent, inline =>
+    let after := if noAfter then [] else after
+    let exprP := expr.rebuildAP false indent true
+    addTriviaP before after
+      (exprP ++ [.ws (selSep (concat exprP) attrGap attrBefore indent), .tok ['.']] ++ attrP attrs ++
+        [.ws (selOrSep dfltGap dfltBefore indent), .tok ['o', 'r'], .ws [' ']] ++
+        dflt.rebuildAP false (selOrIndent dfltGap indent) true) indent inline
+  | .lam name bcc bcGap breaks body before after, noAfter, indent, inline =>
+    let after := if noAfter then [] else after
+    addTriviaP before after
+      ([.tok name, .ws (lamColonPrefix bcc bcGap indent), .tok [':'], .ws (lamBreak breaks)] ++
+        body.rebuildAP false indent (breaks == 0)) indent inline
+  | .un op expr gap between before after, noAfter, indent, inline =>
+    let after := if noAfter then [] else after
+    let l := unLayout between gap
+    let exprP := if l.onNewline then expr.rebuildAP false (l.indent.getD indent) false else expr.rebuildAP false indent true
+    let base : List FP := if op == ['+', '+'] && !inline then [.ws (['\n'] ++ spaces indent), .tok op] else [.tok op]
+    addTriviaP before after (base ++ [.ws (unSep between gap indent)] ++ exprP) indent inline
+  | .bin op left right ogl rgl before after, noAfter, indent, inline =>
+    let after := if noAfter then [] else after
+    let leftP := left.rebuildAP false indent true
+    let rightIndent := binRightIndent op right indent
+    let rightOwn := right.rebuildAP false rightIndent (right.before.isEmpty)
+    let rightOwn := .ws (spaces (ensureIndentPad (concat rightOwn) rightIndent)) :: rightOwn
+    addTriviaP before after (binCoreP leftP rightOwn (right.rebuildAP false indent true) op ogl rgl indent) indent inline
 def rebuildAllP : List Expr → Nat → Bool → List (List FP)
   | [], _, _ => []
   | e :: rest, indent, inline => e.rebuildAP false indent inline :: rebuildAllP rest indent inline
